@@ -11,11 +11,10 @@ HARNESS = os.path.join(ROOT, "harness")
 if REPO != "/repo":
     # a private copy of the harness whose path dependencies point at the scratch repository
     HARNESS = os.path.join(WORK, "harness")
-    if not os.path.exists(os.path.join(HARNESS, "Cargo.toml")):
-        os.makedirs(WORK, exist_ok=True)
-        shutil.copytree(os.path.join(ROOT, "harness"), HARNESS, ignore=shutil.ignore_patterns("target"))
-        ct = open(os.path.join(HARNESS, "Cargo.toml")).read().replace("/repo/", REPO.rstrip("/") + "/")
-        open(os.path.join(HARNESS, "Cargo.toml"), "w").write(ct)
+    os.makedirs(WORK, exist_ok=True)
+    shutil.copytree(os.path.join(ROOT, "harness"), HARNESS, ignore=shutil.ignore_patterns("target"), dirs_exist_ok=True)
+    ct = open(os.path.join(ROOT, "harness", "Cargo.toml")).read().replace("/repo/", REPO.rstrip("/") + "/")
+    open(os.path.join(HARNESS, "Cargo.toml"), "w").write(ct)
 VH = os.path.join(HARNESS, "target", "release", "vh")
 sys.path.insert(0, os.path.join(ROOT, "tools"))
 
